@@ -280,7 +280,9 @@ def _options(rng, fmt, A):
              "layer_n": rng.random() < 0.8, "chord_note_dur": rng.random() < 0.3,
              "ties": rng.choice(["start", "end", "last"]), "nest": rng.choice([None, None, "tail", "head"]),
              "sections": rng.choice(["flat", "nested"]), "breaks": rng.random() < 0.3,
-             "change": rng.choice(["attr", "child"]), "mode": rng.random() < 0.6}
+             "change": rng.choice(["attr", "child"]), "mode": rng.random() < 0.6,
+             # a <space> that ends the layer of a complete bar may be written without a duration (it fills the bar)
+             "bare_space": rng.random() < 0.4}
         mult = rng.choice([1, 1, 2, 4, 10])
         style = rng.choice(["none", "none", "ppq", "durppq", "both"])
         o["unit"] = unit * mult
